@@ -2,7 +2,7 @@
 labels are the per-channel mode over the batches.
 
 Specification: spec/lib/BadChannels.tla (operators, two layers), spec/mc/MC_BadInterp.tla (the repair loop as
-a state machine, any order), spec/mc/MC_BadLabels.tla (label rule / mode / detection skeleton),
+a state machine, any order, repeated calls with one label vector object), spec/mc/MC_BadLabels.tla (label rule / mode / detection skeleton),
 spec/trace/BadChannelsTrace.tla (code -> spec).
 
 1. TLC (exhaustive boxes): implementation layer => property layer.
@@ -14,6 +14,15 @@ spec/trace/BadChannelsTrace.tla (code -> spec).
      interp : label vectors tiled / embedded / clustered / random on the NP1, NP2, NP2.4, NPultra headers
      detect : synthetic AP-band recordings with a coherent background and injected faults
      file   : detect_bad_channels_cbin on .bin/.cbin files, detect_bad_channels wrapped (per-batch labels)
+   The same values are handed over in the forms a caller has them (drawn per case from its own seed, interp_form /
+   detect_form): label vectors of other element types, read-only or strided; x / y as float32 / int32 / int16, read-only or
+   strided; the data matrix in Fortran order, as the transpose of a [ns, nc] array, as rows / columns of a larger buffer;
+   x, y positional; the SAME label / x / y objects used for earlier calls on other recordings (as destripe does per batch);
+   channel order that is not probe order. Detection: float32 / transposed / read-only batches, fs as float / NumPy scalar /
+   measured rate / keyword, thresholds spelled out, channel counts 64..383 and odd batch lengths, the caller's batch looked
+   at again after the call. Files: str paths, default arguments, recordings without sync channel, NP2.1 / NP2.4 / 3B1,
+   measured sampling rate, a Reader that served an earlier call, the same file scanned twice, a second recording in the
+   folder, a file exactly one batch long.
 5. binding self-test: corrupted traces / perturbed expectations must be flagged.
 
 Decided by TLC: which channels change, support sets (integer squared distances), zero case, order
@@ -73,27 +82,88 @@ def _ints(v):
 C1, C2, AMP = 137.5, -52.25, 1000.0
 
 
-def observe_interp(x, y, lab, dtype="float64", seed=0, labtype="float", supports=None):
+LABDT = {"float": "float64", "int": "int64"}
+
+
+def _handover(a, how, rng):
+    """the same values in another storage: 'plain' | 'readonly' | 'strided' (every other element of a longer buffer)"""
+    a = np.asarray(a)
+    if how == "strided":
+        buf = rng.integers(0, 4, 2 * len(a) + 1).astype(a.dtype)
+        buf[1::2] = a
+        a = buf[1::2]
+        assert not a.flags.c_contiguous or len(a) < 2
+    elif how == "readonly":
+        a = a.copy()
+        a.setflags(write=False)
+    return a
+
+
+def _layout(data0, how, rng):
+    """the same matrix as the caller may hold it: C / Fortran order, the data rows of a larger buffer (a sync row
+    follows), a window of columns of a longer recording, every other column of a buffer"""
+    nc, ns = data0.shape
+    if how == "F":
+        return np.asfortranarray(data0.copy())
+    if how == "rows":
+        buf = rng.normal(0, 50, (nc + 1, ns)).astype(data0.dtype)
+        buf[:nc] = data0
+        return buf[:nc]
+    if how == "cols":
+        buf = rng.normal(0, 50, (nc, ns + 7)).astype(data0.dtype)
+        buf[:, 3:3 + ns] = data0
+        return buf[:, 3:3 + ns]
+    if how == "strided":
+        buf = rng.normal(0, 50, (nc, 2 * ns)).astype(data0.dtype)
+        buf[:, ::2] = data0
+        return buf[:, ::2]
+    if how == "T":                       # the transpose of a [ns, nc] array, as Reader[...].T hands it over
+        return np.ascontiguousarray(data0.T).T
+    return data0.copy()
+
+
+def observe_interp(x, y, lab, dtype="float64", seed=0, labtype="float", supports=None, form=None):
     """Runs the real function on data built so that the discrete facts are readable from the output:
     columns 0,1 constants across channels; columns 2..2+nc the identity (channel j alone is non-zero in
     column 2+j); then random columns, two with a large common offset.
     supports: optional {channel(1-based): [channels]} to measure the hull against (spec -> code replay);
-    otherwise the oracle's own reading of the property text (weight >= 0.005, not dead/noisy)."""
+    otherwise the oracle's own reading of the property text (weight >= 0.005, not dead/noisy).
+    form: how the arguments are handed over (all optional; the values are the same):
+      labdt   element type of the label vector            labform / xyform   plain | readonly | strided
+      xydt    element type of x and y (None: as given)    layout  storage of the data matrix (see _layout)
+      call    "kw" | "pos" (x, y positional as destripe does)
+      prior   number of earlier calls with the SAME label / x / y objects on other recordings (destripe hands one
+              label vector and one header to every batch of a file); the judged call is the last one"""
     from ibldsp import voltage
+    form = form or {}
     rng = np.random.default_rng(seed)
     nc = len(lab)
     cols = [np.full((nc, 1), C1), np.full((nc, 1), C2), np.eye(nc) * AMP, rng.normal(0, 50, (nc, 6)),
             1e4 + rng.normal(0, 1, (nc, 2)), rng.integers(-500, 500, (nc, 2)).astype(float)]
     data0 = np.ascontiguousarray(np.hstack(cols).astype(dtype))
-    labels = np.asarray(lab, dtype=float if labtype == "float" else int)
+    frng = np.random.default_rng(seed + 1)
+    labels = _handover(np.asarray(lab, dtype=form.get("labdt") or LABDT.get(labtype, labtype)), form.get("labform", "plain"), frng)
+    xa, ya = np.asarray(x), np.asarray(y)
+    if form.get("xydt"):
+        xa, ya = xa.astype(form["xydt"]), ya.astype(form["xydt"])
+    xa, ya = _handover(xa, form.get("xyform", "plain"), frng), _handover(ya, form.get("xyform", "plain"), frng)
     rec = {"kind": "interp", "exc": "", "g": [list(p) for p in zip(_ints(x), _ints(y))], "lab": [int(v) for v in lab],
            "same": [], "rows": []}
+
+    def call(d):
+        if form.get("call") == "pos":
+            return voltage.interpolate_bad_channels(d, labels, xa, ya)
+        return voltage.interpolate_bad_channels(d, labels, x=xa, y=ya)
     try:
         with np.errstate(all="ignore"):
-            out = voltage.interpolate_bad_channels(data0.copy(), labels, x=np.asarray(x), y=np.asarray(y))
+            for k in range(form.get("prior", 0)):
+                other = frng.normal(0, 50, (nc, 5 + k)).astype(dtype)
+                call(other)
+            out = call(_layout(data0, form.get("layout", "C"), frng))
         out = np.asarray(out)
         if out.shape != data0.shape or out.dtype != data0.dtype:
             raise ValueError("shape or dtype of the returned array")
+        out = np.ascontiguousarray(out)
     except Exception as e:  # the property says the call returns the repaired array
         rec["exc"] = type(e).__name__
         return rec
@@ -102,7 +172,9 @@ def observe_interp(x, y, lab, dtype="float64", seed=0, labtype="float", supports
     rec["same"] = [i + 1 for i in range(nc) if np.array_equal(ov[i], dv[i])]
     bad = np.isin(np.asarray(lab), (1, 2))
     xs, ys = np.asarray(x, dtype=float), np.asarray(y, dtype=float)
-    tol = (1e-12 if dtype == "float64" else 1e-5) * max(1.0, float(np.abs(data0).max()))
+    # single-precision coordinates make single-precision weights: the float32 tolerance applies there as well
+    single = dtype != "float64" or form.get("xydt") == "float32"
+    tol = (1e-5 if single else 1e-12) * max(1.0, float(np.abs(data0).max()))
     for i in np.where(bad)[0]:
         if supports is None:
             w = np.exp(-(np.hypot(xs - xs[i], ys - ys[i]) / 20.0) ** 1.3)
@@ -136,6 +208,7 @@ def interp_cases(ctx, hs):
         cases.append({"geom": name, "sel": sel, "lab": [int(v) for v in lab],
                       "dtype": rnd.choice(["float64", "float64", "float32"]), "labtype": rnd.choice(["float", "int"]),
                       "seed": rnd.randrange(1 << 30)})
+        cases[-1]["form"] = interp_form(cases[-1]["seed"])
 
     for name in names:
         nc = len(hs[name][0])
@@ -187,14 +260,54 @@ def interp_cases(ctx, hs):
         p = rnd.choice([0.1, 0.3, 0.5, 0.8])
         lab = [rnd.choice([1, 2]) if rnd.random() < p else rnd.choice([0, 0, 3]) for _ in range(k)]
         add(name, lab, sel)
+    # channel order that is not probe order (a Reader opened with sort=False, a hand-made selection): reversed and
+    # shuffled selections of 6..60 sites, and each full header once reversed / once shuffled with a cluster of bad channels
+    prnd = random.Random(ctx.seed + 1515)
+    for _ in range(120 if ctx.quick else 1500):
+        name = prnd.choice(names)
+        nc = len(hs[name][0])
+        k = prnd.randrange(6, 61)
+        s0 = prnd.randrange(0, nc - k)
+        sel = list(range(s0, s0 + k)) if prnd.random() < 0.6 else sorted(prnd.sample(range(nc), k))
+        if prnd.random() < 0.3:
+            sel = sel[::-1]
+        else:
+            prnd.shuffle(sel)
+        p = prnd.choice([0.1, 0.3, 0.5, 0.8])
+        add(name, [prnd.choice([1, 2]) if prnd.random() < p else prnd.choice([0, 0, 3]) for _ in range(k)], sel)
+    for name in names:
+        nc = len(hs[name][0])
+        for how in ("reversed", "shuffled"):
+            sel = list(range(nc))[::-1]
+            if how == "shuffled":
+                prnd.shuffle(sel)
+            lab = np.array([prnd.choice([0, 0, 0, 3]) for _ in range(nc)])
+            for _ in range(3):                                   # clusters in space, scattered in index
+                c0, ln = prnd.randrange(nc - 25), prnd.randrange(1, 25)
+                for j, ch in enumerate(sel):
+                    if c0 <= ch < c0 + ln:
+                        lab[j] = prnd.choice([1, 2])
+            add(name, lab, sel)
     return cases
+
+
+def interp_form(seed):
+    """how one case hands its arguments over (drawn from the case's own seed: the case list itself is unchanged)"""
+    r = random.Random(seed ^ 0xC15)
+    return {"labdt": r.choice([None, None, None, "float32", "int8", "uint8", "int32", "int16"]),
+            "labform": r.choice(["plain", "plain", "readonly", "strided"]),
+            "xydt": r.choice([None, None, None, "float32", "int32", "int16", "float64"]),
+            "xyform": r.choice(["plain", "plain", "readonly", "strided"]),
+            "layout": r.choice(["C", "C", "F", "rows", "cols", "strided", "T"]),
+            "call": r.choice(["kw", "pos"]),
+            "prior": r.choice([0, 0, 1, 2])}
 
 
 def run_interp_case(hs, c):
     x, y = hs[c["geom"]]
     if c["sel"] is not None:
         x, y = x[c["sel"]], y[c["sel"]]
-    return observe_interp(x, y, c["lab"], dtype=c["dtype"], seed=c["seed"], labtype=c["labtype"])
+    return observe_interp(x, y, c["lab"], dtype=c["dtype"], seed=c["seed"], labtype=c["labtype"], form=c.get("form"))
 
 
 # ------------------------------------------------------------------------------------------------
@@ -241,12 +354,57 @@ def synth_multi(m):
     return raw
 
 
-def run_rule(m):
+def detect_form(seed):
+    """how a detection scenario hands its arguments over (drawn from the scenario's own seed: the scenario list is
+    unchanged). The property speaks of the recording, not of its storage: a batch comes out of a Reader as the
+    transpose of a float32 [ns, nc] array, fs as the float of the metadata (30000.0 or a measured rate)."""
+    r = random.Random(seed ^ 0xDE7)
+    return {"dt": r.choice(["float64", "float64", "float32"]),
+            "layout": r.choice(["C", "C", "T", "rows", "readonly", "F"]),
+            "fs": r.choice(["int", "float", "npfloat", "measured", "kw"]),
+            "thr": r.choice([None, None, "tuple", "list", "array", "psd"])}
+
+
+def call_detect(raw, form):
+    """detect_bad_channels(raw, fs) with the arguments in the given form; the caller's array is looked at again
+    afterwards: if the call changed it, the caller who goes on using it (a second look at the same batch) is the
+    execution that is judged"""
     from ibldsp import voltage
+    form = form or {}
+    rng = np.random.default_rng(5)
+    raw = raw.astype(form.get("dt", "float64"))
+    how = form.get("layout", "C")
+    if how == "readonly":
+        arr = raw.copy()
+        arr.setflags(write=False)
+    else:
+        arr = _layout(raw, how, rng)
+    fs = {"int": FS, "float": float(FS), "npfloat": np.float64(FS), "measured": 30000.27, "kw": float(FS)}[form.get("fs", "int")]
+    kw = {}
+    if form.get("thr") == "tuple":
+        kw["similarity_threshold"] = (-0.5, 1)
+    elif form.get("thr") == "list":
+        kw["similarity_threshold"] = [-0.5, 1.0]
+    elif form.get("thr") == "array":
+        kw["similarity_threshold"] = np.array([-0.5, 1.0])
+    elif form.get("thr") == "psd":
+        kw.update(psd_hf_threshold=0.02, display=False)
+
+    def call():
+        if form.get("fs") == "kw":
+            return voltage.detect_bad_channels(arr, fs=fs, **kw)
+        return voltage.detect_bad_channels(arr, fs, **kw)
+    labels, xf = call()
+    if how != "readonly" and not np.array_equal(arr, raw):
+        labels, xf = call()
+    return labels, xf
+
+
+def run_rule(m):
     rec = {"kind": "rule", "exc": "", "n": m["n"], "labels": [], "fdead": [], "fnoisy": [], "fcand": []}
     try:
         with np.errstate(all="ignore"):
-            labels, xf = voltage.detect_bad_channels(synth_multi(m), FS)
+            labels, xf = call_detect(synth_multi(m), m.get("form"))
         rec["labels"] = _labels_int(labels)
         rec.update(flags_of(xf))
     except Exception as e:
@@ -291,12 +449,11 @@ def flags_of(xf):
 
 
 def run_detect(sc):
-    from ibldsp import voltage
     rec = {"kind": "detect", "exc": "", "n": sc["n"], "dead": sc["dead"], "noisy": sc["noisy"], "nrep": sc.get("nrep", 0),
            "top": sc["top"], "labels": [], "fdead": [], "fnoisy": [], "fcand": []}
     try:
         with np.errstate(all="ignore"):
-            labels, xf = voltage.detect_bad_channels(synth(sc), FS)
+            labels, xf = call_detect(synth(sc), sc.get("form"))
         rec["labels"] = _labels_int(labels)
         if len(rec["labels"]) != sc["n"]:
             raise ValueError("length of the label vector")
@@ -319,6 +476,7 @@ def scenario(rnd, n, dead, noisy, top, ns=3000):
     if top and noisy and noisy > n - top - 6:
         sc["nsig"] = 150e-6     # the strongest noise inside / next to the block sits at the decision threshold of the block edge
     sc["dc"] = rnd.choice([0, 0, 0.3e-3, 0.9e-3])
+    sc["form"] = detect_form(sc["seed"])
     return sc
 
 
@@ -328,6 +486,11 @@ def scenario_dcnoise(rnd, n, top):
     sc = scenario(rnd, n, rnd.randrange(13, n - top - 12), 0, top)
     sc.update({"amp": rnd.choice([3e-6, 4e-6, 10e-6]), "sig": rnd.choice([6e-6, 7e-6]), "dc": rnd.choice([0.6e-3, 0.9e-3]),
                "nrep": 0})
+    if sc["top"] and sc["amp"] < 10e-6:
+        # a background weaker than the channel noise leaves the first channel of an outside-brain block at the decision
+        # threshold of the block edge (measured on the unchanged tree: 3 uV under 7 uV labels it clear in 10 % of the draws,
+        # 4 uV under 7 uV in 1 %; seed 12 of the quick tier reported it): such recordings have no block here
+        sc["top"] = 0
     return sc
 
 
@@ -385,6 +548,26 @@ def detect_scenarios(ctx):
             top = rnd.randrange(0, 20)
             out.append(scenario(rnd, m, rnd.randrange(1, m - top - 6), rnd.randrange(m - top - 5, m + 1), top,
                                 ns=rnd.choice([3000, 9000])))
+    out += detect_other_sizes(ctx)
+    return out
+
+
+def detect_other_sizes(ctx):
+    """channel counts other than 384 (saved subsets, odd counts) and batch lengths that are odd / no round number, in
+    both tiers (own random stream: the scenarios above stay what they were)"""
+    rnd = random.Random(ctx.seed + 1501)
+    out = []
+    for _ in range(12 if ctx.quick else 80):
+        m = rnd.choice([64, 96, 127, 192, 277, 383])
+        top = rnd.randrange(0, min(20, m // 6))
+        ns = rnd.choice([2999, 3001, 3333, 4097])
+        if rnd.random() < 0.5:          # both faults in the interior, more than a median window apart
+            d = rnd.randrange(13, m - top - 12)
+            q = rnd.choice([p for p in range(13, m - top - 12) if abs(p - d) > 12])
+        else:                           # silent anywhere below the block, noisy next to / inside the block or at the top
+            d = rnd.randrange(1, m - top - 6)
+            q = rnd.randrange(m - top - 5, m + 1)
+        out.append(scenario(rnd, m, d, q, top, ns=ns))
     return out
 
 
@@ -393,15 +576,20 @@ def detect_scenarios(ctx):
 # ------------------------------------------------------------------------------------------------
 def run_file(job):
     """job: {folder, segs: [scenario]*nb | None, stub: nb x nc label matrix | None, nc, ns_seg, compress, reader}
+    optional: probe (metagen kind, default 3B2), nshank, nsync (0: a recording saved without its sync channel), fs (rate written to
+    the metadata), path ("str": the file name as a string), defaults (n_batches / batch_duration left to the function: 10 x 0.3 s),
+    again (an earlier call with that many batches on the same Reader object / file before the judged one), decoy (another
+    recording with other dimensions in the same folder)
     returns (file record, [detect records per batch])"""
     import spikeglx
     from ibldsp import voltage
     folder = Path(job["folder"])
     nb, nc, ns_seg = job["nb"], job["nc"], job["ns_seg"]
-    ns = nb * ns_seg + job.get("extra", 0)
+    ns = job.get("ns") or nb * ns_seg + job.get("extra", 0)
     rng = np.random.default_rng(job["seed"])
-    meta, info = metagen.make_meta("3B2", metagen.dense_sites("3B2", n=nc), ns=ns)
-    s2v = 0.6 / 512 / 500
+    probe, nsync, fs = job.get("probe", "3B2"), job.get("nsync", 1), job.get("fs", FS)
+    meta, info = metagen.make_meta(probe, metagen.dense_sites(probe, n=nc, nshank=job.get("nshank", 1)), ns=ns, nsync=nsync, fs=fs)
+    s2v = 0.5 / 8192 / 80 if probe.startswith("NP2") else 0.6 / 512 / 500
     if job["segs"] is not None:
         volts = np.concatenate([synth(sc) for sc in job["segs"]], axis=1)
         if job.get("extra", 0):
@@ -414,7 +602,12 @@ def run_file(job):
     drecs = []
     try:
         # the Reader returns the channels sorted by geometry: put intended channel i where column i is read from
-        disk = np.zeros((ns, nc + 1), dtype=np.int16)
+        disk = np.zeros((ns, nc + nsync), dtype=np.int16)
+        if nsync:
+            disk[:, nc:] = rng.integers(0, 64, size=(ns, nsync))          # sync words: no part of the answer
+        if job.get("decoy"):
+            dmeta, _ = metagen.make_meta("3B2", metagen.dense_sites("3B2", n=nc + 3), ns=211)
+            metagen.write_recording(folder, job["stem"] + "_g1", dmeta, rng.integers(-9, 9, size=(211, nc + 4)).astype(np.int16))
         b = metagen.write_recording(folder, job["stem"], meta, disk)
         with spikeglx.Reader(b) as sr0:
             ind = np.asarray(sr0.geometry["ind"]).astype(int)
@@ -438,7 +631,7 @@ def run_file(job):
     def wrapped(raw, fs, *a, **kw):
         k = len(calls)
         if job["stub"] is not None:
-            labels, xf = np.asarray(job["stub"][k], dtype=float), {"ind": np.arange(nc)}
+            labels, xf = np.asarray(job["stub"][k % nb], dtype=float), {"ind": np.arange(nc)}
         else:
             labels, xf = real_detect(raw, fs, *a, **kw)
         calls.append((_labels_int(labels), np.asarray(raw).shape, flags_of(xf) if "xcor_hf" in xf else None, float(fs)))
@@ -451,20 +644,31 @@ def run_file(job):
 
     voltage.detect_bad_channels = wrapped
     spikeglx.Reader.__getitem__ = getitem
+    target = str(b) if job.get("path") == "str" else b
+    kw = {} if job.get("defaults") else {"n_batches": nb, "batch_duration": ns_seg / FS}
     try:
         with np.errstate(all="ignore"):
             if job["reader"]:
-                with spikeglx.Reader(b, sort=True) as sr:
-                    res = voltage.detect_bad_channels_cbin(sr, n_batches=nb, batch_duration=ns_seg / FS)
+                with spikeglx.Reader(target, sort=True) as sr:
+                    if job.get("again"):
+                        sr[5:9, :2]                                                   # the caller has used the Reader before
+                        voltage.detect_bad_channels_cbin(sr, n_batches=job["again"], batch_duration=ns_seg / FS)
+                        del calls[:], slices[:]
+                        if _reader_closed(sr):      # reading on would end the interpreter: the caller's next call cannot return
+                            raise ReaderClosed("the call closed the Reader it was given")
+                    res = voltage.detect_bad_channels_cbin(sr, **kw)
             else:
-                res = voltage.detect_bad_channels_cbin(b, n_batches=nb, batch_duration=ns_seg / FS)
+                if job.get("again"):
+                    voltage.detect_bad_channels_cbin(target, n_batches=job["again"], batch_duration=ns_seg / FS)
+                    del calls[:], slices[:]
+                res = voltage.detect_bad_channels_cbin(target, **kw)
         rec["result"] = _labels_int(res)
         rec["batches"] = [c[0] for c in calls]
         rec["nb"] = nb
         rec["starts"] = [int(s[0]) for s in slices[:len(calls)]]
         rec["lens"] = [int(c[1][1]) for c in calls]
         if len(calls) != nb or len(slices) < nb or any(c[1][0] != nc for c in calls):
-            raise ValueError("number of batches / channels handed to detect_bad_channels")
+            raise BatchesHanded("number of batches / channels handed to detect_bad_channels")
         if job["segs"] is not None:
             for k, sc in enumerate(job["segs"]):
                 d = {"kind": "detect", "exc": "", "n": nc, "dead": sc["dead"], "noisy": sc["noisy"], "nrep": sc["nrep"],
@@ -480,6 +684,21 @@ def run_file(job):
         f.unlink()
     folder.rmdir()
     return rec, drecs
+
+
+class BatchesHanded(Exception):
+    """the detector was not handed nb batches of the nc data channels"""
+
+
+class ReaderClosed(Exception):
+    """the call closed the Reader object of its caller"""
+
+
+def _reader_closed(sr):
+    """a Reader on a .bin whose memory map was closed (is_open keeps saying True). Private attributes, with a fallback: when
+    they are not there the question is not asked"""
+    mm = getattr(getattr(sr, "_raw", None), "_mmap", None)
+    return bool(getattr(mm, "closed", False))
 
 
 def file_jobs(ctx):
@@ -508,7 +727,9 @@ def file_jobs(ctx):
                           qch if k % 2 == 0 else 0, top if k >= nb // 2 else 0)
             sc["amp"], sc["sig"] = 80e-6, 5e-6          # int16 files: 2.34 uV per bit
             segs.append(sc)
-        job(segs=segs, nb=nb, compress=(r % 3 == 1), reader=(r % 3 == 2))
+        # ... on a four-shank file (compressed), on a recording saved without its sync channel (through a Reader)
+        job(segs=segs, nb=nb, compress=(r % 3 == 1), reader=(r % 3 == 2),
+            **({"probe": "NP2.4", "nshank": 4} if r % 3 == 1 else {"nsync": 0, "again": 2 if r % 2 else 0} if r % 3 == 2 else {}))
     # (b) every column of labels over nb batches at once: channel c gets the base-4 digits of c (stubbed detector)
     for nb in (1, 2, 3, 4):
         nc = 4 ** nb
@@ -517,6 +738,27 @@ def file_jobs(ctx):
     for nb in ((5, 10) if ctx.quick else (5, 6, 7, 10, 10, 11, 20)):
         stub = [[rnd.choice([0, 0, 1, 2, 3]) for _ in range(n)] for _ in range(nb)]
         job(stub=stub, nb=nb, nc=n, ns_seg=300, compress=(nb == 10), extra=rnd.choice([0, 123]))
+    # (c) what the call finds and how it is called (stubbed detector): arguments left to their defaults (10 batches of 0.3 s,
+    #     overlapping on a short file), the file name as a string, recordings without sync channel, other probe kinds, a measured
+    #     sampling rate, a Reader that served an earlier call, the same file scanned twice, a second recording in the folder,
+    #     a file exactly one batch long
+    def stubs(nb, nc):
+        return [[rnd.choice([0, 0, 1, 2, 3]) for _ in range(nc)] for _ in range(nb)]
+    job(stub=stubs(10, 24), nb=10, nc=24, ns_seg=9000, ns=rnd.choice([21000, 30011]), defaults=True, path="str")
+    job(stub=stubs(10, 17), nb=10, nc=17, ns_seg=9000, ns=rnd.choice([9000, 12345]), defaults=True, reader=True, nsync=0, probe="NP2.1")
+    job(stub=stubs(3, n), nb=3, nc=n, ns_seg=300, nsync=0, decoy=True)
+    job(stub=stubs(4, n), nb=4, nc=n, ns_seg=300, probe="NP2.4", nshank=4, reader=True, again=2, compress=True, extra=41)
+    job(stub=stubs(5, 96), nb=5, nc=96, ns_seg=300, probe="NP2.1", nsync=0, path="str", again=4, decoy=True, compress=True)
+    job(stub=stubs(5, 40), nb=5, nc=40, ns_seg=300, fs=30000.27, extra=77, reader=True, again=3)
+    job(stub=stubs(3, 32), nb=3, nc=32, ns_seg=300, ns=300, path="str")
+    if not ctx.quick:
+        for _ in range(12):
+            nb = rnd.randrange(1, 9)
+            nc = rnd.choice([8, 33, 96, 384])
+            job(stub=stubs(nb, nc), nb=nb, nc=nc, ns_seg=rnd.choice([300, 450]), extra=rnd.choice([0, 1, 299]),
+                probe=rnd.choice(["3B2", "3B1", "NP2.1", "NP2.4"]), nsync=rnd.choice([0, 1]), reader=rnd.random() < 0.5,
+                compress=rnd.random() < 0.4, again=rnd.choice([0, 0, 1, 3]), path=rnd.choice(["path", "str"]),
+                decoy=rnd.random() < 0.3, fs=rnd.choice([FS, FS, 30000.27, 29999.91]))
     return jobs
 
 
@@ -558,14 +800,15 @@ def replay_cases(ctx, exp):
         supp = {i + 1: s for i, s in enumerate(c["supp"])}
         seed = rnd.randrange(1 << 30)
         dtype = "float64" if rnd.random() < 0.8 else "float32"
-        rec = observe_interp(x, y, c["lab"], dtype=dtype, seed=seed, supports=supp)
+        form = interp_form(seed)
+        rec = observe_interp(x, y, c["lab"], dtype=dtype, seed=seed, supports=supp, form=form)
         nb = len(c["bad"])
         ctx.count(1, key=("replay", c["g"], tuple(c["lab"])) if nb else None)
         bad = compare_case(c, rec)
         if bad and nviol < 20:
             nviol += 1
-            ctx.violation("interp:" + bad[0], f"interpolate_bad_channels on geometry {c['g']} labels {c['lab']}: {bad[1]}",
-                          {"kind": "replay-case", "geoms": {c["g"]: g}, "case": c, "dtype": dtype, "seed": seed})
+            ctx.violation("interp:" + bad[0], f"interpolate_bad_channels on geometry {c['g']} labels {c['lab']}{_form_text(form, INTERP_PLAIN)}: {bad[1]}",
+                          {"kind": "replay-case", "geoms": {c["g"]: g}, "case": c, "dtype": dtype, "seed": seed, "form": form})
     ctx.cov["replayed_tlc_cases"] = len(exp["cases"])
 
 
@@ -624,7 +867,14 @@ def run_models(ctx):
             if r.ok or r.invariant_violated != inv:
                 raise tlc.TLCError(f"{cfg}: the model of the unrepaired code should violate {inv}, TLC says "
                                    f"{r.invariant_violated}")
-        ctx.cov["orig_models_violate"] = ["Repaired", "DetectOK"]
+        # ... and the what-if "the loop marks repaired channels in the caller's label vector": invisible in the first call,
+        # the property layer breaks in the second call with the same vector
+        r = tlc.run("mc/MC_BadInterp.tla", "mc/BadInterp_marks.cfg", workers=2, timeout=600)
+        last = r.error_trace[-1] if r.error_trace else {}
+        if r.ok or r.invariant_violated != "Repaired" or str(last.get("ncall")) != "2":
+            raise tlc.TLCError(f"BadInterp_marks.cfg: the what-if model should violate Repaired in the second call, TLC says "
+                               f"{r.invariant_violated} at call {last.get('ncall')}")
+        ctx.cov["orig_models_violate"] = ["Repaired", "DetectOK", "Repaired (second call, what-if marks)"]
     return json.loads(out.read_text())
 
 
@@ -638,13 +888,23 @@ def validate(ctx, recs, label):
     return tracecheck.validate(ctx, TRACE[0], TRACE[1], recs, label=label, jvms=4, workers=1, nstates=nstates, timeout=1500)
 
 
+INTERP_PLAIN = {"labdt": None, "labform": "plain", "xydt": None, "xyform": "plain", "layout": "C", "call": "kw", "prior": 0}
+DETECT_PLAIN = {"dt": "float64", "layout": "C", "fs": "int", "thr": None}
+
+
+def _form_text(form, plain):
+    """the hand-over form of a case, only what differs from the plain one"""
+    d = {k: v for k, v in (form or {}).items() if plain.get(k) != v}
+    return (", handed over as " + str(d)) if d else ""
+
+
 def describe(meta, rec):
     if meta["kind"] == "filebatch":
         return f"batch {meta['batch']} of {describe(meta['job'], {})}: " + describe(meta["job"]["segs"][meta["batch"]], rec)
     if meta["kind"] == "interp":
         nb = sum(1 for v in meta["lab"] if v in (1, 2))
         return f"interpolate_bad_channels on {meta['geom']}{'' if meta['sel'] is None else ' subset ' + str(meta['sel'][:6]) + '..'} " \
-               f"({len(meta['lab'])} channels, {nb} dead/noisy, {meta['dtype']})"
+               f"({len(meta['lab'])} channels, {nb} dead/noisy, {meta['dtype']}{_form_text(meta.get('form'), INTERP_PLAIN)})"
     if meta["kind"] == "rule":
         return (f"detect_bad_channels n={meta['n']} silent={meta['deads']} noisy={meta['noisies']} incoherent blocks={meta['blocks']} "
                 f"seed={meta['seed']}")
@@ -653,9 +913,12 @@ def describe(meta, rec):
         seen = {i + 1: v for i, v in enumerate(lab) if v}
         few = dict(list(seen.items())[:8])
         return (f"detect_bad_channels n={meta['n']} silent={meta['dead']} noisy={meta['noisy']}{'(noise only)' if meta.get('nrep') else ''} "
-                f"top-block={meta['top']} "
+                f"top-block={meta['top']} ns={meta.get('ns', 3000)}"
+                f"{_form_text(meta.get('form'), DETECT_PLAIN)} "
                 f"seed={meta['seed']}: non-zero labels {few}{'..' if len(seen) > 8 else ''}")
+    how = {k: meta[k] for k in ("probe", "nshank", "nsync", "fs", "path", "defaults", "again", "decoy", "ns") if k in meta}
     return f"detect_bad_channels_cbin nb={meta['nb']} nc={meta['nc']} {'cbin' if meta['compress'] else 'bin'}" \
+           f"{' through a Reader' if meta.get('reader') else ''}{' ' + str(how) if how else ''}" \
            f"{' stubbed detector' if meta['stub'] is not None else ''}"
 
 
@@ -771,7 +1034,8 @@ def model_cex(ctx, e, hs):
     st = e.state
     if "gname" in st:
         name = tlc.parse_value(st["gname"])
-        lab = tlc.parse_value(st["lab"])
+        lab = tlc.parse_value(st["lab0"] if "lab0" in st else st["lab"])      # the labels the caller wrote
+        prior = max(int(tlc.parse_value(st["ncall"])) - 1, 0) if "ncall" in st else 0
         g = {"np1": "np1", "np2": "np2", "np24": "np24", "ultra": "ultra"}.get(name)
         if g is None:
             x = np.array([27, 27, 27, 59, 27, 27, 59, 59][:len(lab)]) if name == "np2x" else None
@@ -780,11 +1044,11 @@ def model_cex(ctx, e, hs):
                 raise tlc.TLCError(f"model violates {e.inv} on {name} {lab}\n{e.tail}")
         else:
             x, y = hs[g][0][:len(lab)], hs[g][1][:len(lab)]
-        rec = observe_interp(x, y, lab)
+        rec = observe_interp(x, y, lab, form={"prior": prior})
         v = validate(ctx, [rec], "cex")
         if v and v[0]["prop"]:
             ctx.violation(_key(v[0]["prop"]), f"model counterexample ({e.inv}) reproduced on interpolate_bad_channels, geometry "
-                          f"{name}, labels {lab}: {v[0]['prop']}", {"kind": "interp-raw", "x": _ints(x), "y": _ints(y), "lab": lab})
+                          f"{name}, labels {lab}: {v[0]['prop']}", {"kind": "interp-raw", "x": _ints(x), "y": _ints(y), "lab": lab, "form": {"prior": prior}})
             return
     elif "inp" in st and "sc |->" in st["inp"]:
         inp = tlc.parse_value(st["inp"])
@@ -906,7 +1170,8 @@ def replay(ctx, sc):
         c = sc["case"]
         g = sc["geoms"][c["g"]]
         x, y = np.array([p[0] for p in g]), np.array([p[1] for p in g], dtype=float)
-        rec = observe_interp(x, y, c["lab"], dtype=sc["dtype"], seed=sc["seed"], supports={i + 1: s for i, s in enumerate(c["supp"])})
+        rec = observe_interp(x, y, c["lab"], dtype=sc["dtype"], seed=sc["seed"], supports={i + 1: s for i, s in enumerate(c["supp"])},
+                             form=sc.get("form"))
         bad = compare_case(c, rec)
         if bad:
             ctx.violation("interp:" + bad[0], f"replay {c['g']} {c['lab']}: {bad[1]}", sc)
@@ -914,7 +1179,7 @@ def replay(ctx, sc):
     if kind == "interp":
         rec = run_interp_case(hs, sc)
     elif kind == "interp-raw":
-        rec = observe_interp(np.array(sc["x"]), np.array(sc["y"], dtype=float), sc["lab"])
+        rec = observe_interp(np.array(sc["x"]), np.array(sc["y"], dtype=float), sc["lab"], form=sc.get("form"))
     elif kind == "detect":
         rec = run_detect(sc)
     elif kind == "rule":
